@@ -637,13 +637,17 @@ public:
         std::vector<size_t> offsets;
         PGMIndex<K, Epsilon, 0, Floating>::build(first, last, Epsilon, 0, tmp, offsets);
 
+        // The segments that start at the sentinel (the last one and, when the last key is sentinel - 1, the one mapping the
+        // keys above it to n) serve no valid key and are not coded: sentinel - first_key + 1 can wrap the universe size
+        size_t coded_segments = 0;
         segments.reserve(tmp.size());
         for (auto &x: tmp) {
             segments.push_back(x);
+            coded_segments += x.key != PGMIndex<K, Epsilon, 0, Floating>::sentinel;
             x.key -= first_key;
         }
 
-        ef = decltype(ef)(tmp.begin(), std::prev(tmp.end()));
+        ef = decltype(ef)(tmp.begin(), tmp.begin() + coded_segments);
     }
 
     /**
